@@ -26,6 +26,7 @@ import (
 	"testing"
 	"time"
 
+	"github.com/gotid/god/lib/breaker"
 	"github.com/gotid/god/lib/logx"
 	"pgregory.net/rapid"
 	"verif.local/kit"
@@ -1858,4 +1859,302 @@ func VerifC11InterpRows(c C11RowsCase, q C11Querier) (v kit.Verdict) {
 func TestVerif_C11_rows(t *testing.T) {
 	kit.Run(t, "C11", "rows", kit.Opts{Quick: 30000, Thorough: 1200000}, VerifC11GenRows(C11RowsSessions),
 		func(c C11RowsCase) kit.Verdict { return VerifC11InterpRows(c, c11RunQuery) })
+}
+
+// ---------------------------------------------------------------------------
+// rule 3: a history of calls on ONE connection (its circuit breaker may shed)
+// ---------------------------------------------------------------------------
+
+// C11HistOp is one call on the shared connection.
+type C11HistOp struct {
+	K   string `json:"k"`             // tx | txctx | exec | query
+	F   bool   `json:"f,omitempty"`   // the driver fails the statement (exec / query / the Exec inside the transaction, whose error the body returns)
+	Out string `json:"o,omitempty"`   // tx: outcome of the body after its statement: nil | err | panic
+	FC  bool   `json:"fc,omitempty"`  // tx: the driver fails Commit
+	FR  bool   `json:"fr,omitempty"`  // tx: the driver fails Rollback
+	Gap int    `json:"gap,omitempty"` // virtual milliseconds slept before the call
+}
+
+// C11HistCase is a history: a burst of calls the driver fails (so that the
+// connection's breaker starts shedding) followed by arbitrary calls. Every call
+// of the history, burst included, is judged on its own.
+type C11HistCase struct {
+	Log string      `json:"lg,omitempty"`
+	Ops []C11HistOp `json:"ops"`
+}
+
+// C11HistConn is what the history needs from a connection.
+type C11HistConn interface {
+	Transact(fn func(Session) error) error
+	TransactCtx(ctx context.Context, fn func(context.Context, Session) error) error
+	Exec(query string, args ...any) (sql.Result, error)
+	QueryRow(v any, query string, args ...any) error
+}
+
+// VerifC11GenHist draws a history.
+func VerifC11GenHist(rt *rapid.T) C11HistCase {
+	c := C11HistCase{Log: rapid.SampledFrom([]string{"", "", "off", "stmtoff"}).Draw(rt, "log")}
+	burst := rapid.IntRange(10, 40).Draw(rt, "burst")
+	if rapid.IntRange(0, 9).Draw(rt, "noburst") == 6 {
+		burst = rapid.IntRange(0, 5).Draw(rt, "smallburst")
+	}
+	burstKind := rapid.SampledFrom([]string{"exec", "exec", "query", "tx", "txctx", "mixed"}).Draw(rt, "burstkind")
+	for i := 0; i < burst; i++ {
+		k := burstKind
+		if k == "mixed" {
+			k = rapid.SampledFrom([]string{"exec", "query", "tx", "txctx"}).Draw(rt, "bk")
+		}
+		op := C11HistOp{K: k, F: true}
+		if k == "tx" || k == "txctx" {
+			op.Out = "nil"
+			switch rapid.IntRange(0, 3).Draw(rt, "btx") {
+			case 1:
+				op.F, op.Out = false, "err"
+			case 2:
+				op.F, op.FC = false, true // the commit's own error is not benign for the breaker either
+			}
+		}
+		c.Ops = append(c.Ops, op)
+	}
+	n := rapid.IntRange(1, 12).Draw(rt, "nops")
+	for i := 0; i < n; i++ {
+		op := C11HistOp{K: rapid.SampledFrom([]string{"tx", "tx", "txctx", "txctx", "exec", "query"}).Draw(rt, "kind")}
+		op.F = rapid.IntRange(0, 4).Draw(rt, "fault") == 3
+		if op.K == "tx" || op.K == "txctx" {
+			op.Out = rapid.SampledFrom([]string{"nil", "nil", "nil", "err", "panic"}).Draw(rt, "out")
+			op.FC = rapid.IntRange(0, 5).Draw(rt, "fc") == 3
+			op.FR = rapid.IntRange(0, 5).Draw(rt, "fr") == 3
+		}
+		switch rapid.IntRange(0, 19).Draw(rt, "gap") {
+		case 5:
+			op.Gap = rapid.IntRange(1, 3000).Draw(rt, "gapms")
+		case 11:
+			op.Gap = 11000 // the breaker's whole window passes
+		}
+		c.Ops = append(c.Ops, op)
+	}
+	return c
+}
+
+// VerifC11InterpHist runs the history on one connection made by mk inside a
+// synctest bubble (virtual time: the breaker's window and its random source,
+// seeded from the clock, are a function of the case) and judges every call:
+//   - the driver saw nothing of the call (the connection refused it): the result
+//     is not nil, a transaction body was not run, a query destination is empty;
+//   - otherwise the call is judged like a call on a fresh connection: exec/query
+//     return the driver's error or nil (+ the row); a transaction's driver history
+//     is begin, exec, commit|rollback as the body's outcome demands, with the
+//     result the statement prescribes;
+//   - a nil result of a transaction always comes with exactly one successful
+//     Commit in the driver history of that call, a nil error of exec/query with
+//     the statement in it.
+func VerifC11InterpHist(t *testing.T, c C11HistCase, mk func(db *sql.DB) C11HistConn) (v kit.Verdict) {
+	defer VerifC11SetLog(c.Log)()
+	classes := map[string]bool{"log:" + map[string]string{"": "on", "off": "DisableLog", "stmtoff": "DisableStmtLog"}[c.Log]: true}
+	fail := ""
+	shedCount, seenAfterShed := 0, 0
+	res := kit.Bubble(t, func() {
+		f := newC11Fake()
+		f.cols = []string{"a"}
+		f.rows = [][]driver.Value{{int64(41)}}
+		db := sql.OpenDB(c11Connector{f})
+		defer db.Close()
+		conn := mk(db)
+		bodyErr := errors.New("c11 body error")
+
+		for i, op := range c.Ops {
+			if op.Gap > 0 {
+				time.Sleep(time.Duration(op.Gap) * time.Millisecond)
+			}
+			start := len(f.snapshot())
+			f.failCommit, f.failRollback = op.FC, op.FR
+			stmtErr := &c11Fault{fmt.Sprintf("op %d", i)}
+			what := fmt.Sprintf("call %d of %d %+v", i, len(c.Ops), op)
+			var err error
+			var panicked bool
+			var pv any
+			runs := 0
+			outcome := ""
+			var returned error
+			lost := ""
+			var captured Session
+			var dst struct {
+				A int64 `db:"a"`
+			}
+			body := func(ctx context.Context, s Session) error {
+				runs++
+				captured = s
+				if op.F {
+					f.arm(stmtErr)
+				}
+				var e error
+				if op.K == "txctx" {
+					_, e = s.ExecCtx(ctx, "update t set a = a + 1")
+				} else {
+					_, e = s.Exec("update t set a = ? where id = ?", i, 1)
+				}
+				if left := f.takeArmed(); op.F && left == nil && !errors.Is(e, stmtErr) {
+					lost = fmt.Sprintf("the driver failed the Exec inside the transaction with %q but the session call returned %v", stmtErr, e)
+				}
+				if e != nil {
+					outcome, returned = "err", e
+					return e
+				}
+				switch op.Out {
+				case "err":
+					outcome, returned = "err", bodyErr
+					return bodyErr
+				case "panic":
+					outcome = "panic"
+					panic(bodyErr)
+				}
+				outcome = "nil"
+				return nil
+			}
+			func() {
+				defer func() {
+					if p := recover(); p != nil {
+						panicked, pv = true, p
+					}
+				}()
+				switch op.K {
+				case "exec":
+					if op.F {
+						f.arm(stmtErr)
+					}
+					_, err = conn.Exec("update t set a = a + 1 where id = ?", i)
+				case "query":
+					if op.F {
+						f.arm(stmtErr)
+					}
+					err = conn.QueryRow(&dst, "select a from t where id = ?", i)
+				case "tx":
+					err = conn.Transact(func(s Session) error { return body(context.Background(), s) })
+				case "txctx":
+					err = conn.TransactCtx(context.Background(), body)
+				}
+			}()
+			armedLeft := f.takeArmed()
+			evs := f.snapshot()[start:]
+			commits, rollbacks := 0, 0
+			for _, e := range evs {
+				switch e {
+				case "commit":
+					commits++
+				case "rollback":
+					rollbacks++
+				}
+			}
+			if captured != nil && commits+rollbacks == 0 {
+				VerifC11AbortSession(captured) // hygiene
+			}
+			desc := fmt.Sprintf("result=%v, panicked=%v(%v), driver history of the call=%v, body runs=%d", err, panicked, pv, evs, runs)
+
+			if len(evs) == 0 {
+				// the connection refused the call
+				shedCount++
+				classes["shed:"+op.K] = true
+				if errors.Is(err, breaker.ErrServiceUnavailable) {
+					classes["shed=>ErrServiceUnavailable"] = true
+				}
+				switch {
+				case panicked:
+					fail = fmt.Sprintf("%s: nothing reached the driver and the caller got a panic (%s)", what, desc)
+				case err == nil && (op.K == "tx" || op.K == "txctx"):
+					fail = fmt.Sprintf("%s: Transact returned nil although nothing reached the driver: no Begin, no Commit; a nil result must mean exactly one Commit (%s)", what, desc)
+				case err == nil:
+					fail = fmt.Sprintf("%s: nil error although the statement never reached the driver (%s)", what, desc)
+				case runs != 0:
+					fail = fmt.Sprintf("%s: no Begin reached the driver but the body was run (%s)", what, desc)
+				case dst.A != 0:
+					fail = fmt.Sprintf("%s: nothing reached the driver but the destination holds %d (%s)", what, dst.A, desc)
+				}
+				if fail != "" {
+					return
+				}
+				continue
+			}
+			if shedCount > 0 {
+				seenAfterShed++
+			}
+			if panicked {
+				fail = fmt.Sprintf("%s: the caller got a panic (%s)", what, desc)
+				return
+			}
+			switch op.K {
+			case "exec", "query":
+				classes["executed:"+op.K] = true
+				switch {
+				case !c11SameEvents(evs, []string{op.K}):
+					fail = fmt.Sprintf("%s: driver history of the call is not [%s] (%s)", what, op.K, desc)
+				case op.F && armedLeft != nil:
+					fail = fmt.Sprintf("c11 harness: the armed fault was not consumed (%s: %s)", what, desc)
+				case op.F && !errors.Is(err, stmtErr):
+					fail = fmt.Sprintf("%s: the driver failed the statement with %q but the call returned %v (%s)", what, stmtErr, err, desc)
+				case op.F && dst.A != 0:
+					fail = fmt.Sprintf("%s: failed query but the destination holds %d (%s)", what, dst.A, desc)
+				case !op.F && err != nil:
+					fail = fmt.Sprintf("%s: the driver executed the statement but the call returned %v (%s)", what, err, desc)
+				case !op.F && op.K == "query" && dst.A != 41:
+					fail = fmt.Sprintf("%s: QueryRow read %d, the driver served 41 (%s)", what, dst.A, desc)
+				}
+			default:
+				classes["executed:tx/"+outcome] = true
+				terminal := "rollback"
+				if outcome == "nil" {
+					terminal = "commit"
+				}
+				switch {
+				case runs != 1:
+					fail = fmt.Sprintf("%s: the body was run %d times (%s)", what, runs, desc)
+				case lost != "":
+					fail = fmt.Sprintf("%s: %s (%s)", what, lost, desc)
+				case !c11SameEvents(evs, []string{"begin", "exec", terminal}):
+					fail = fmt.Sprintf("%s: body outcome %s: driver history of the call is not [begin exec %s] (%s)", what, outcome, terminal, desc)
+				case outcome == "nil" && !op.FC && err != nil:
+					fail = fmt.Sprintf("%s: body returned nil and Commit succeeded but Transact returned %v (%s)", what, err, desc)
+				case outcome == "nil" && op.FC && !errors.Is(err, f.commitErr):
+					fail = fmt.Sprintf("%s: body returned nil and Commit failed but Transact returned %v (%s)", what, err, desc)
+				case outcome == "err" && err == nil:
+					fail = fmt.Sprintf("%s: body returned %q but Transact returned nil (%s)", what, returned, desc)
+				case outcome == "err" && !op.FR && !errors.Is(err, returned):
+					fail = fmt.Sprintf("%s: body returned %q, Rollback succeeded, Transact returned another error (%s)", what, returned, desc)
+				case outcome == "panic" && err == nil:
+					fail = fmt.Sprintf("%s: body panicked but the caller learnt nothing (%s)", what, desc)
+				case err == nil && !(commits == 1 && rollbacks == 0 && !op.FC):
+					fail = fmt.Sprintf("%s: nil result without exactly one successful Commit (%s)", what, desc)
+				}
+			}
+			if fail != "" {
+				return
+			}
+		}
+	})
+	if shedCount > 0 {
+		classes["some-call-shed"] = true
+		v.NonTrivial = true
+		if seenAfterShed > 0 {
+			classes["executed-after-shedding-began"] = true
+		}
+	} else {
+		classes["no-call-shed"] = true
+	}
+	for k := range classes {
+		v.Classes = append(v.Classes, k)
+	}
+	sort.Strings(v.Classes)
+	if fail != "" {
+		return v.Failf("%s", fail)
+	}
+	if !res.OK() {
+		return v.Failf("bubble: %s", res.String())
+	}
+	return v
+}
+
+func TestVerif_C11_hist(t *testing.T) {
+	kit.Run(t, "C11", "hist", kit.Opts{Quick: 3000, Thorough: 160000}, VerifC11GenHist,
+		func(c C11HistCase) kit.Verdict {
+			return VerifC11InterpHist(t, c, func(db *sql.DB) C11HistConn { return NewConnFromDB(db) })
+		})
 }
